@@ -169,6 +169,17 @@ func main() {
 	instrument := func(list []ast.Stmt) []ast.Stmt {
 		var out []ast.Stmt
 		for _, st := range list {
+			if _, ok := st.(*ast.SendStmt); ok {
+				// a channel send hands a value to another goroutine: let the scheduler run the
+				// receiver before the sender continues (what it does with the value races with
+				// whatever the sender still does with it)
+				out = append(out, st, &ast.ExprStmt{X: &ast.CallExpr{
+					Fun:  &ast.SelectorExpr{X: ast.NewIdent("simsync"), Sel: ast.NewIdent("Yield")},
+					Args: []ast.Expr{&ast.BasicLit{Kind: token.STRING, Value: strconv.Quote("chan-send")}},
+				}})
+				changed = true
+				continue
+			}
 			if f, w := classify(st); f != "" {
 				site := fmt.Sprintf("%s:%d", base, fset.Position(st.Pos()).Line)
 				wr := "false"
